@@ -1,5 +1,6 @@
 """C08 - HTLC deadlines: constants, the shape of every deadline guard, and the relations between sites."""
 from engine import *
+import guards
 import provenance
 
 MONP = 'lightning::chain::channelmonitor::'
@@ -267,3 +268,4 @@ RULES = [
 	('08.g', 'cross-site relations between the extracted bounds', r08g),
 	('08.z', 'named protocol / policy constants in this property\'s files have their reviewed values (rules/provenance.py)', lambda F: provenance.consts_for_property(F, 'C08', '08.z')),
 ]
+RULES.append(('08.G', 'guard census restricted to the deadline-handling functions (block_confirmed, do_best_block_updated, best_block_updated, do_chain_event, the forward admission helpers, timer_tick_occurred, the claims-view updaters): no reviewed call or stored-collection mutation gained a controlling condition - a fail-back / timeout / claim that silently stops happening in one situation (rules/guards.py)', lambda F: guards.for_property(F, 'C08', '08.G')))
